@@ -325,7 +325,7 @@ class steinberg(generic_mie_gruneisen):
         if(rho < self.reference_density):
             return self.c_0**2*(self.eta(rho) + rho*self.deta_drho(rho))
         elif(rho>=self.reference_density):
-            return self.c_0**2*self.reference_density*(self.poly(self.eta(rho)) + self.eta(rho)* self.dpoly_deta(self.eta(rho)))/(self.poly(self.eta(rho))**2)*self.deta_drho(rho)
+            return self.c_0**2*self.reference_density*(self.poly(self.eta(rho)) - self.eta(rho)* self.dpoly_deta(self.eta(rho)))/(self.poly(self.eta(rho))**2)*self.deta_drho(rho)
 
 
 
